@@ -100,6 +100,12 @@ impl Block {
         let capstone: usize = 1/*tag 11*/ + 4/*fixed32 capstone*/;
         let footer_body: usize = num_restarts * 4;
         let footer_head: usize = 1/*tag 10*/ + v64::from(footer_body).pack_sz();
+        // The footer must fit in the block, or the number of restarts is not to be believed.
+        let footer: usize = footer_head + footer_body + capstone;
+        if bytes.len() < footer {
+            CORRUPTION.click();
+            return Err(block_too_small(bytes.len(), footer));
+        }
         let restarts_idx = bytes.len() - capstone - footer_body;
         let restarts_boundary = restarts_idx - footer_head;
         // Reader.
